@@ -974,7 +974,7 @@ fn subjects() -> Vec<String> {
 }
 
 /// subjects of the coverage round that share their code path with an older subject: they skip the
-/// 1500-key regime of the random driver (quick tier) and take every 4th (thorough: 2nd) TLC-generated history
+/// large-universe regime of the random driver and take every 4th TLC-generated history
 fn is_light(name: &str) -> bool {
     const LIGHT: &[&str] = &[
         "zhm:default@libmix",
@@ -1382,7 +1382,7 @@ fn drive(a: &Args) {
         // every subject starts a new trace file: a subject with a known finding is re-validated alone
         tr.max_events = 0;
         for (ri, &(uni, steps, runs)) in regimes.iter().enumerate() {
-            if uni > 40 && is_light(name) && !a.thorough() {
+            if uni > 40 && is_light(name) {
                 continue;
             }
             for run in 0..runs {
@@ -1760,11 +1760,7 @@ fn replay_subject(a: &Args, name: &str, idx: usize, behaviours: &[Value]) -> (St
     let mut tr = Tracer::new(&a.out, &format!("mapb2-{idx:03}"));
     tr.max_events = 4000;
     let mut rng = Rng::new(a.seed).derive("b2sample").derive(name);
-    let stride = match (is_light(name), a.thorough()) {
-        (true, false) => 4,
-        (true, true) => 2,
-        _ => 1,
-    };
+    let stride = if is_light(name) { 4 } else { 1 };
     let sample_every = (a.get_u64("sample", 200) / stride as u64).max(1);
     let max_mismatch_traces = a.get_u64("max_mismatch", 150) as usize;
     let kid = |s: &Value| -> u32 { s.as_str().map(|x| x[1..].parse::<u32>().unwrap_or(1) - 1).unwrap_or(0) };
